@@ -7,7 +7,6 @@ PROPS = {}
 NOT_APPLICABLE = {
     "C03": "relational semantics of Insert/Update/Delete/Select::exec over histories: executors (BTreeMap<Vec<Value>,_>, HashSet<Vec<Value>>) plus the cfb container measured out of Kani's reach even on an in-memory container model (25 min / 10 GB for 2 rows); no loop-free kernel carries the property",
     "C05": "invariant over all reachable table states under Insert/Update::exec; same measured obstacle as C03 (the cell-validity conjunct is decided under C07)",
-    "C12": "Join::exec/Select::exec need the container and build Table/Column clones per result row; Select::exec of one 2-row table on a model container did not leave symbolic execution in 15 min / 8 GB",
 }
 
 # ---------------------------------------------------------------- C13
@@ -544,4 +543,27 @@ PROPS["C11"] = {
     "bounds": "all Unicode scalar values; all 6-bit values; one stream call from an arbitrary flag state",
     "outside": "encode/decode loops, is_valid's length rule, listing, contents, digital-signature streams, cfb",
     "assumptions": list(__import__("vlib.mir_protocol", fromlist=["x"]).PROTOCOL_MODELS_DOC),
+}
+
+# ---------------------------------------------------------------- C12 (partial)
+PROPS["C12"] = {
+    "level": "model_checking", "engine": "mir-smt", "mir": True,
+    "technique": "symbolic execution of the MIR of Join::exec (Inner, Left) and Select::exec with their loops unrolled, sub-selects, tables "
+                 "and expression evaluation arbitrary, the join condition an uninterpreted boolean per row pair, name lookups "
+                 "uninterpreted predicates; z3/cvc5; counterexamples replayed through public-API join/select scenarios",
+    "claim": "(1) Row combination, <= 2 left x 2 right rows: for each left row in order and each right row in order the concatenation "
+             "(left cells first) is emitted exactly when the condition holds for that pair; a left join emits each unmatched left row "
+             "once, after its right rows, padded on the right; nothing else is emitted. (2) Names: on every path on which Join::exec "
+             "evaluates its ON condition, and on every path on which Select::exec filters or builds its result, every column name "
+             "mentioned (<= 2 per condition, <= 2 requested columns) was looked up in the table the rows belong to and found - so the "
+             "panicking Row index cannot miss and unknown names end in Err - and the projection indices are the lookups' results in "
+             "the requested order. NOT decided: the table.column naming of result columns (Column::with_name_prefix), nullability of "
+             "left-join columns, the projection's cell copying (closures), composition of nested joins beyond the per-node laws, and "
+             "unknown TABLE names (Join::Table's not_found path is read, not encoded).",
+    "note": "Trusted: MIR translator, iterator models (collection, position), z3/cvc5. The per-node laws compose over any select tree "
+            "because each node's sub-selects are arbitrary results in the encoding, but that composition argument is on paper.",
+    "bounds": "<= 2 x 2 rows, <= 2 names per condition, <= 2 requested columns (each MIR block visited at most 3 times per path)",
+    "outside": "result column naming, nullability, projection closures, unknown table names, larger row/name counts",
+    "assumptions": ["iterators modelled by (underlying collection, position)", "Select::exec / Join::exec sub-calls, Rows, Table::new, Expr::eval are arbitrary-result events",
+                    "Table::has_column / index_for_column_name are uninterpreted predicates of (table, name)"],
 }
